@@ -74,7 +74,8 @@ macro_rules! zvec {
 }
 zvec!(VecU8: u8, 3, VecU16: u16, 3, VecU32: u32, 3, VecU64: u64, 2, VecU128: u128, 2, VecUnit: (), 2,
       VecArrU16x2: [u16; 2], 2, VecTupU16: (u16, u16), 2, VecZeroS: ZeroS, 2, VecZTail: ZTail, 2,
-      VecZAl32: ZAl32, 1, VecZUnit: ZUnit, 2, VecZE: ZE, 1, VecRangeTo: RangeTo<u32>, 2);
+      VecZAl32: ZAl32, 1, VecZUnit: ZUnit, 2, VecZE: ZE, 1, VecRangeTo: RangeTo<u32>, 2,
+      VecRangeToArr3: RangeTo<[u8; 3]>, 2, VecRangeToUnit: RangeTo<()>, 2);
 
 impl Sym for ZeroS { fn sym() -> Self { ZeroS { a: any(), b: any() } } }
 impl Sym for ZTail { fn sym() -> Self { ZTail { a: any(), b: any() } } }
